@@ -30,25 +30,23 @@ def conc(name, size, kinds, steps, tiers, bounds, thorough=None, symsize=0, **kw
 
 R = '%d scheduler rounds (every thread one execution segment per round; a switch is possible before every queue operation and inside every holding section)'
 INSTANCES = [
-    {'name': 'dev_seq', 'src': 'rp_seq.cpp', 'engine': 'cbmc', 'shims': ['moodycamel'], 'models': ['aligned_alloc'],
-     'defs': {'VF_SIZE': 1, 'VF_OPS': 1, 'VF_SLOTS': 2, 'VF_MQ_CAP': 3}, 'unwind': 5, 'timeout': 300, 'tiers': ['dev'], 'bounds': 'dev'},
-    conc('conc_s1_2t', 1, ((0, 1), (0, 3)), 4, ['quick', 'thorough'],
+    conc('conc_s1_2t', 1, ((0, 1), (0, 3)), 3, ['quick', 'thorough'],
          'pool size 1; 2 threads x 2 cycles: plain acquire/release + move-constructed handle | plain + move-assignment onto a moved-from '
-         'handle and self-move-assignment; ' + R % 4 + ' (thorough: 6)', thorough={'steps': 6}),
-    conc('conc_s2_assign', 2, ((2, -1), (0, 0)), 4, ['quick', 'thorough'],
+         'handle and self-move-assignment; ' + R % 3 + ' (thorough: 5)', thorough={'steps': 5}),
+    conc('conc_s2_assign', 2, ((2, -1), (0, 0)), 3, ['quick', 'thorough'],
          'pool size 2; thread 1: holds two resources and move-assigns one handle onto the other live handle; thread 2: 2 plain cycles; '
-         + R % 4 + ' (thorough: 6)', thorough={'steps': 6}),
-    conc('conc_s2_3t', 2, ((0, -1), (1, -1), (4, -1)), 4, ['quick', 'thorough'],
+         + R % 3 + ' (thorough: 5)', thorough={'steps': 5}),
+    conc('conc_s2_3t', 2, ((0, -1), (1, -1), (4, -1)), 3, ['quick', 'thorough'],
          'pool size 2; 3 threads x 1 cycle: plain | move-constructed handle | fresh acquire() assigned onto a live handle; '
-         + R % 4 + ' (thorough: 5)', thorough={'steps': 5}),
+         + R % 3 + ' (thorough: 5)', thorough={'steps': 5}),
     conc('conc_s3_3t', 3, ((2, 0), (4, -1), (9, 9)), 5, ['thorough'],
-         'pool size 1..3 (symbolic); 3 threads: move-assignment onto a live handle + plain | acquire() assigned onto a live handle | '
+         'pool size 3; 3 threads: move-assignment onto a live handle + plain | acquire() assigned onto a live handle | '
          '2 cycles of symbolic kind (plain, move-constructed, move-assigned onto moved-from + self-assignment); ' + R % 5, symsize=0),
     {'name': 'seq_history', 'src': 'rp_seq.cpp', 'engine': 'cbmc', 'shims': ['moodycamel'], 'models': ['aligned_alloc'],
-     'defs': {'VF_SIZE': 2, 'VF_OPS': 5, 'VF_SLOTS': 3, 'VF_MQ_CAP': 4}, 'unwind': 7, 'timeout': 1500,
+     'defs': {'VF_SIZE': 2, 'VF_SYMSIZE': 0, 'VF_OPS': 3, 'VF_SLOTS': 3, 'VF_MQ_CAP': 4}, 'unwind': 5, 'timeout': 1500,
      'tiers': ['quick', 'thorough'],
-     'bounds': 'symbolic pool size 1..2 (thorough: 1..3); 3 handle slots; every history of 5 (thorough: 7) operations out of: acquire into a '
+     'bounds': 'pool size 2 (thorough: symbolic 1..3); 3 handle slots; every history of 3 (thorough: 5) operations out of: acquire into a '
                'fresh handle, acquire() assigned onto an existing handle, destroy, move-construct, move-assign (incl. self, live onto live, '
-               'onto/from moved-from), get(); then all handles destroyed and ~ResourcePool',
-     'thorough': {'defs': {'VF_SIZE': 3, 'VF_OPS': 7, 'VF_SLOTS': 3, 'VF_MQ_CAP': 5}, 'unwind': 9}},
+               'onto/from moved-from), get(); then all handles destroyed and ~ResourcePool; queue model capacity size+2',
+     'thorough': {'defs': {'VF_SIZE': 3, 'VF_SYMSIZE': 1, 'VF_OPS': 5, 'VF_SLOTS': 3, 'VF_MQ_CAP': 5}, 'unwind': 7}},
 ]
